@@ -1,0 +1,9 @@
+//go:build !verif
+
+package common
+
+// verifIterate is a no-op unless the "verif" build tag is set
+// (see verifhook_on.go).
+func verifIterate[K comparable, V any](_ any, _ map[K]V, _ func(key K, value V) bool) bool {
+	return false
+}
